@@ -249,6 +249,9 @@ func sortU64(x []uint64) {
 }
 
 // mutate applies one structured mutation to the tuple.
+// forceMut: when set, the next mutate call uses this kind instead of the drawn one (and clears it).
+var forceMut string
+
 func mutate(t *rapid.T, tp Tuple, f *model.Forest, v *model.View, inRangeOnly, allowLenMismatch bool) Tuple {
 	kinds := []string{"dup", "retarget", "swaphash", "rehash", "pdrop", "pinsert", "pswap", "preplace", "protate", "nested", "addtarget"}
 	if !inRangeOnly {
@@ -258,6 +261,9 @@ func mutate(t *rapid.T, tp Tuple, f *model.Forest, v *model.View, inRangeOnly, a
 		kinds = append(kinds, "lenmismatch")
 	}
 	kind := rapid.SampledFrom(kinds).Draw(t, "mut")
+	if forceMut != "" {
+		kind, forceMut = forceMut, ""
+	}
 	nt := len(tp.Targets)
 	if len(tp.Hashes) < nt { // after a length-mismatch mutation only the common prefix is addressed
 		nt = len(tp.Hashes)
@@ -527,7 +533,19 @@ func genHostileTuple(t *rapid.T, f *model.Forest, v *model.View, inRangeOnly, al
 	if len(live) == 0 || rapid.IntRange(0, 4).Draw(t, "free") == 0 {
 		return genFreeTuple(t, f, v, inRangeOnly, allowLenMismatch)
 	}
-	tp := honestTuple(f, v, genRequest(t, f))
+	var req []int
+	if len(live) >= 150 && rapid.Bool().Draw(t, "wide-claim") {
+		req = subsetP(t, live, 1, 3, "wide") // a claim about dozens to hundreds of leaves
+	}
+	if len(req) == 0 {
+		req = genRequest(t, f)
+	}
+	tp := honestTuple(f, v, req)
+	if len(tp.Targets) >= 32 && rapid.Bool().Draw(t, "big-claim-dup") {
+		// claims with dozens of targets are rare (big cases only): make sure a repeated position - the
+		// mutation whose handling depends on the number of targets - is tried on half of them
+		forceMut = "dup"
+	}
 	n := rapid.IntRange(1, 3).Draw(t, "nmut")
 	for i := 0; i < n; i++ {
 		tp = mutate(t, tp, f, v, inRangeOnly, allowLenMismatch)
